@@ -47,14 +47,39 @@ let show_state be bits sigs fs =
                                              (zs f.f_sig) (zs f.f_byte) (zs f.f_mask) (zs f.f_len) (zs f.f_off))) fs;
   Buffer.contents b
 
-let trace_main file =
+(* Coq text of model values, for the vm_compute cross-check of the thorough tier *)
+let coq_z z = let t = zs z in if String.length t > 0 && t.[0] = '-' then "(" ^ t ^ ")" else t
+let coq_bool b = if b then "true" else "false"
+let coq_kind = function KStandard -> "KStandard" | KEnum -> "KEnum" | KMux -> "KMux"
+let coq_sig g = Printf.sprintf "mkSig %s %s %s %s %s" (coq_z g.s_id) (coq_z g.s_start) (coq_z g.s_size) (coq_bool g.s_be) (coq_kind g.s_kind)
+let coq_filter f = Printf.sprintf "mkF %s %s %s %s %s" (coq_z f.f_sig) (coq_z f.f_byte) (coq_z f.f_mask) (coq_z f.f_len) (coq_z f.f_off)
+let coq_list f l = "[" ^ String.concat "; " (List.map f l) ^ "]"
+let coq_op = function
+  | OAppend (id, size, k, ob) -> Printf.sprintf "OAppend %s %s %s %s" (coq_z id) (coq_z size) (coq_kind k) (coq_bool ob)
+  | OInsert (id, st, size, k, ob) -> Printf.sprintf "OInsert %s %s %s %s %s" (coq_z id) (coq_z st) (coq_z size) (coq_kind k) (coq_bool ob)
+  | ORemove id -> Printf.sprintf "ORemove %s" (coq_z id)
+  | ORemoveAll -> "ORemoveAll"
+  | OSetByteOrder b -> Printf.sprintf "OSetByteOrder %s" (coq_bool b)
+  | OSetGeom (id, st, size) -> Printf.sprintf "OSetGeom %s %s %s" (coq_z id) (coq_z st) (coq_z size)
+  | OResize bits -> Printf.sprintf "OResize %s" (coq_z bits)
+
+let trace_main ?(emit = 0) ?(skip = 0) file =
   let ic = open_in file in
-  let st = ref (new_message Z0) in
   let steps = ref 0 and bad = ref 0 and hists = ref 0 in
+  let emitted = ref 0 and cur_bits = ref "" and cur_steps = ref [] in
+  let flush_hist () =
+    if !cur_bits <> "" && !emitted < emit && !cur_steps <> [] && !hists > skip then begin
+      incr emitted;
+      Printf.printf "COQ-HISTORY (%s, [%s])\n" !cur_bits (String.concat "; " (List.rev !cur_steps))
+    end;
+    cur_steps := [] in
+  let applied = ref [] in
+  let apply st o = applied := o :: !applied; st := step !st o in
+  let st = ref (new_message Z0) in
   (try while true do
       let line = input_line ic in
       match String.split_on_char ' ' line with
-      | ["H"; bits] -> incr hists; st := new_message (cz bits)
+      | ["H"; bits] -> flush_hist (); cur_bits := bits; incr hists; st := new_message (cz bits)
       | "S" :: _ ->
         incr steps;
         let opx, pre, obs = match Str.split (Str.regexp_string " ; ") line with
@@ -72,25 +97,37 @@ let trace_main file =
         let find_obs id = List.find_opt (fun g -> g.s_id = id) osigs in
         let in_model id = List.exists (fun g -> g.s_id = id) (m_sigs !st) in
         let pre_be = (pre = "1") in
+        applied := [];
         (match op with
-         | ["BO"; b] -> st := step !st (OSetByteOrder (b = "1"))
+         | ["BO"; b] -> apply st (OSetByteOrder (b = "1"))
          | ["AP"; k] ->
            (match find_obs (cz k) with
-            | Some g when not (in_model (cz k)) -> st := step !st (OAppend (g.s_id, g.s_size, g.s_kind, pre_be))
+            | Some g when not (in_model (cz k)) -> apply st (OAppend (g.s_id, g.s_size, g.s_kind, pre_be))
             | _ -> ())
          | ["IN"; k; _] ->
            (match find_obs (cz k) with
-            | Some g when not (in_model (cz k)) -> st := step !st (OInsert (g.s_id, g.s_start, g.s_size, g.s_kind, pre_be))
+            | Some g when not (in_model (cz k)) -> apply st (OInsert (g.s_id, g.s_start, g.s_size, g.s_kind, pre_be))
             | _ -> ())
-         | ["RM"; k] -> if in_model (cz k) && find_obs (cz k) = None then st := step !st (ORemove (cz k))
-         | "SZ" :: _ -> if zs (m_bits !st) <> obits then st := step !st (OResize (cz obits))
+         | ["RM"; k] -> if in_model (cz k) && find_obs (cz k) = None then apply st (ORemove (cz k))
+         | "SZ" :: _ -> if zs (m_bits !st) <> obits then apply st (OResize (cz obits))
          | _ -> ());
         (* every remaining difference of geometry is a size / position edit of a placed signal *)
         List.iter (fun g ->
             match List.find_opt (fun x -> x.s_id = g.s_id) (m_sigs !st) with
             | Some x when x.s_start <> g.s_start || x.s_size <> g.s_size ->
-              st := step !st (OSetGeom (g.s_id, g.s_start, g.s_size))
+              apply st (OSetGeom (g.s_id, g.s_start, g.s_size))
             | _ -> ()) osigs;
+        if !emitted < emit && !hists > skip then begin
+          let ofs = ref [] in
+          if next () <> "F" then failwith "expected F";
+          let nf = int_of_string (next ()) in
+          for _ = 1 to nf do
+            let a = next () in let b = next () in let c = next () in let d = next () in let e = next () in
+            ofs := { f_sig = cz a; f_byte = cz b; f_mask = cz c; f_len = cz d; f_off = cz e } :: !ofs
+          done;
+          cur_steps := Printf.sprintf "(%s, mkH %s %s %s %s)" (coq_list coq_op (List.rev !applied)) (coq_bool obe) obits
+              (coq_list coq_sig osigs) (coq_list coq_filter (List.rev !ofs)) :: !cur_steps
+        end;
         let m = show_state (m_be !st) (zs (m_bits !st)) (m_sigs !st) (filters !st) in
         if m <> obs then begin
           incr bad;
@@ -100,10 +137,13 @@ let trace_main file =
         end
       | _ -> ()
     done with End_of_file -> ());
+  flush_hist ();
   Printf.printf "TRACE HISTORIES %d STEPS %d MISMATCHES %d\n" !hists !steps !bad
 
 let () =
   if Array.length Sys.argv > 2 && Sys.argv.(1) = "--trace" then (trace_main Sys.argv.(2); exit 0);
+  if Array.length Sys.argv > 4 && Sys.argv.(1) = "--trace-coq" then
+    (trace_main ~emit:(int_of_string Sys.argv.(2)) ~skip:(int_of_string Sys.argv.(3)) Sys.argv.(4); exit 0);
   let ic = open_in Sys.argv.(1) in
   let n = ref 0 and bad = ref 0 and decs = ref 0 in
   (try while true do
